@@ -13,7 +13,7 @@ from kfv.rules import tensor_rules as TR
 
 TECHNIQUE = ('normal form of the clip formula and of the per-layer inner-product terms per bias valuation; definite-assignment with flag '
              'partitioning and per-iteration scoping (stale loop-carried reads); None-safety (belief contradiction) of kl_clip; phase order; '
-             'alias analysis of the gradient between preconditioning and write-back')
+             'alias analysis of the gradient between preconditioning and write-back; cache-coherence rule; checkpoint key-table agreement for the clip hyper-parameters')
 EXPLANATION = (
     '_compute_grad_scale is reduced to normal form: an accumulator starting at 0, one term <V_w, D_w>*lr^2 per layer plus <V_b, D_b>*lr^2 '
     'exactly for layers with bias (V split as all-but-last / last column, viewed with the parameter shapes), result '
@@ -21,7 +21,7 @@ EXPLANATION = (
     '(flag-partitioned definite assignment).  step() computes one scale after all preconditioning and before every write-back, None '
     'exactly when kl_clip is None, which the constructor must accept; update_grad multiplies exactly when a scale is given.  Between '
     'preconditioned_grad and update_grad nothing may write into storage aliased with a module gradient (abstract interpretation with '
-    'alias labels, KAISA and GPT-NeoX layers).  That nu is numerically equal on all ranks and the bound as an inequality on values are not decided.')
+    'alias labels, KAISA and GPT-NeoX layers).  That nu is numerically equal on all ranks and the bound as an inequality on values are not decided. Cached derivatives of lr / kl_clip must be invalidated by every writer (MEMO-*); kl_clip and lr are restored exactly when present in the state (TAB-SD); a receive buffer of broadcast_grad never aliases the module gradient.')
 
 NOT_DECIDED = 'that nu is numerically equal on all ranks; the bound as an inequality on values'
 
